@@ -132,6 +132,9 @@ func cmdCheck(args []string) int {
 			}
 		}
 	}
+	if *prop == "C13" {
+		run.obls = append(run.obls, v.globalWriteScan()...)
+	}
 	// solve
 	var wg sync.WaitGroup
 	var mu sync.Mutex
